@@ -731,12 +731,44 @@ fn run(cfg: &Cfg, rep: &mut Report) {
     });
     rep.run_stream(cfg, 5, "normalize", cfg.n(400_000, 20_000_000), |rng, _, rep| {
         use re::math::vec::{vec3, Vec3};
-        let mag = rng.log_f32(1e-3, 1e3);
-        let v = [rng.f32_in(-1.0, 1.0) * mag, rng.f32_in(-1.0, 1.0) * mag, rng.f32_in(-1.0, 1.0) * mag];
+        // every magnitude whose squared length f32 can hold: the bulk, the
+        // short end down into subnormal squared lengths, the long end up to
+        // the overflow of the squared length, and exact power-of-two scalings
+        let class = rng.below(4);
+        let mag = match class {
+            0 => rng.log_f32(1e-3, 1e3),
+            1 => rng.log_f32(1e-23, 1e-3),
+            2 => rng.log_f32(1e3, 1.8e19),
+            _ => f32::powi(2.0, rng.int(-76, 63) as i32),
+        };
+        let v = if class == 3 && rng.chance(1, 2) {
+            let mut t = [3.0 * mag, 4.0 * mag, 0.0];
+            t.rotate_left(rng.below(3) as usize);
+            t
+        } else {
+            [rng.f32_in(-1.0, 1.0) * mag, rng.f32_in(-1.0, 1.0) * mag, rng.f32_in(-1.0, 1.0) * mag]
+        };
         let l = geo::len3(v.map(|x| x as f64));
-        if l < 1e-6 {
+        // The squared length is formed in f32: beyond f32::MAX it is
+        // infinite, and below 2^-126 it is a subnormal whose spacing 2^-149
+        // bounds how well any backend can know the length. Where that alone
+        // costs more than 1 % the case is not judged
+        let lsq = l * l;
+        let sub = 2f64.powi(-149) / lsq;
+        if !(lsq < 3.0e38) || !(sub < 1e-2) {
+            rep.count("normalize_unjudged(squared_length_not_representable)");
             return;
         }
+        if lsq < 1.2e-38 {
+            // the fast reciprocal square roots (mm, fallback) are bit tricks on
+            // the exponent field and are only claimed for normal numbers
+            if BACKEND == "mm" || BACKEND == "none" {
+                rep.count("normalize_unjudged(subnormal_squared_length_on_fast_backend)");
+                return;
+            }
+            rep.count("normalize_subnormal_squared_length");
+        }
+        rep.count(["normalize_bulk", "normalize_short", "normalize_long", "normalize_pow2"][class as usize]);
         let mut hs = Hasher::new();
         hs.f32s(&v);
         rep.case(hs.get(), true);
@@ -747,7 +779,7 @@ fn run(cfg: &Cfg, rep: &mut Report) {
                 let bnd = match BACKEND {
                     "std" | "libm" => 1e-6,
                     _ => 3e-3,
-                };
+                } + 2.0 * sub;
                 let e = (0..3).map(|i| (u[i] as f64 - v[i] as f64 / l).abs()).fold(0.0, f64::max);
                 rep.worst("normalize_err", e, bnd, String::new);
                 if !(e <= bnd) {
